@@ -241,6 +241,70 @@ def simpleExec (s : St) : Stmt → Res Flow
      | none => .stuck)
   | _ => .stuck
 
+/-- which raised exception names a handler's type expression catches -/
+inductive ExcPat
+  | any | names (ns : List String) | unknown
+  deriving DecidableEq, Repr
+
+def nameList : List Expr → Option (List String)
+  | [] => some []
+  | e :: es =>
+    match nameOf e, nameList es with
+    | some (x, _), some xs => some (x :: xs)
+    | _, _ => none
+
+def excKind : Option Expr → ExcPat
+  | none => .any
+  | some (.tuple es) => (match nameList es with | some ns => .names ns | none => .unknown)
+  | some e => (match nameOf e with | some (x, _) => .names [x] | none => .unknown)
+
+/-- does a handler (type pattern, `as` name) catch the raised name: `some true` / `some false`; `none` = outside the
+    core (binding the exception object, a type that is not a name or a tuple of names).  Exception classes are
+    matched by name; `Exception` / `BaseException` catch everything the core can raise. -/
+def catches (p : ExcPat) (asName : Option String) (x : String) : Option Bool :=
+  match asName with
+  | some _ => none
+  | none =>
+    match p with
+    | .any => some true
+    | .names ns => some (ns.contains x || ns.contains "Exception" || ns.contains "BaseException")
+    | .unknown => none
+
+/-- the state an outcome carries (`none` for stuck / timeout) -/
+def stateOf? : Res Flow → Option St
+  | .ok (.normal s) => some s
+  | .ok (.returned _ s) => some s
+  | .ok (.broke s) => some s
+  | .ok (.continued s) => some s
+  | .raised _ s => some s
+  | _ => none
+
+/-- after a `finally` block that completed normally in state `s2`, the pending outcome resumes in that state -/
+def resume (r : Res Flow) (s2 : St) : Res Flow :=
+  match r with
+  | .ok (.normal _) => .ok (.normal s2)
+  | .ok (.returned v _) => .ok (.returned v s2)
+  | .ok (.broke _) => .ok (.broke s2)
+  | .ok (.continued _) => .ok (.continued s2)
+  | .raised x _ => .raised x s2
+  | r => r
+
+/-- after the body of a `try`: the `else` clause (not protected by the handlers) or the handlers -/
+def afterBody (r0 : Res Flow) (runElse : St → Res Flow) (runHandlers : String → St → Res Flow) : Res Flow :=
+  match r0 with
+  | .ok (.normal s1) => runElse s1
+  | .raised x s1 => runHandlers x s1
+  | r => r
+
+/-- the `finally` clause always runs; if it completes normally the pending outcome resumes, otherwise it wins -/
+def withFinally (r1 : Res Flow) (runFinally : St → Res Flow) : Res Flow :=
+  match stateOf? r1 with
+  | none => r1
+  | some s1 =>
+    match runFinally s1 with
+    | .ok (.normal s2) => resume r1 s2
+    | rf => rf
+
 /-- a function body that falls off its end returns `None` -/
 def asCall : Res Flow → Res Flow
   | .ok (.normal s) => .ok (.returned .none s)
@@ -268,11 +332,25 @@ def exec1 (ft : FTab) (fuel : Nat) (s : St) : Stmt → Res Flow
        else execL ft fuel s orelse
      | some (.error x) => .raised x s
      | none => .stuck)
+  | .try_ false body hs orelse fin =>
+    -- body; then `else` or the first matching handler; then `finally`, always
+    withFinally
+      (afterBody (execL ft fuel s body) (fun s1 => execL ft fuel s1 orelse) (fun x s1 => execH ft fuel s1 x hs))
+      (fun s1 => execL ft fuel s1 fin)
   | st =>
     match callOf st with
     | some (f, args, target) => callFn ft fuel s f args target
     | none => simpleExec s st
 termination_by st => (fuel, 1 + sizeOf st)
+/-- the first handler that catches `x` runs; no handler: the exception propagates -/
+def execH (ft : FTab) (fuel : Nat) (s : St) (x : String) : List Handler → Res Flow
+  | [] => .raised x s
+  | .mk ty nm hbody :: rest =>
+    match catches (excKind ty) nm x with
+    | some true => execL ft fuel s hbody
+    | some false => execH ft fuel s x rest
+    | none => .stuck
+termination_by hs => (fuel, 1 + sizeOf hs)
 def execL (ft : FTab) (fuel : Nat) (s : St) : List Stmt → Res Flow
   | [] => .ok (.normal s)
   | st :: rest =>
